@@ -1,5 +1,275 @@
-import RSVerif.Basic
-/- C05: line-protocol driver (stub) -/
+import RSVerif.Model.Handoff
+import RSVerif.Spec.Handoff
+/-
+Line protocol for C05 (case kinds: see go/harness/c05.go).
+
+For a case whose framing satisfies the hypotheses of the property theorems (`Spec.Handoff.*.wf`) the line is
+what the *specification* predicts — the RDB consumer gets `rdb`, the command parser `cmds`, the ids are the
+announced ones — and the model is run as well on the case's fragmentation; if it ever disagreed with the
+specification (impossible by `Properties.C05.handoff_exact`/`dump_exact`) the line is marked.  For every other
+case (malformed or odd streams, unit cases) the line is what the model of the code does when the source
+delivers everything and then closes.
+-/
 namespace RSVerif.Drive.C05
-def handle (_line : String) : String := "unimplemented"
+open RSVerif RSVerif.Handoff
+
+/-! ### byte specs and rendering (mirrors c05Gen / c05Show / c05Fnv of the harness) -/
+
+def genBytes (seed : UInt64) (n : Nat) : Bytes :=
+  let rec go : Nat → UInt64 → Bytes → Bytes
+    | 0, _, acc => acc.reverse
+    | k + 1, x, acc =>
+      let x' := x * 6364136223846793005 + 1442695040888963407
+      go k x' ((x' >>> 56).toUInt8 :: acc)
+  go n seed []
+
+def parseBytes (s : String) : Option Bytes :=
+  if s.startsWith "@" then
+    match (s.drop 1).toString.splitOn ":" with
+    | [a, b] =>
+      match a.toNat?, b.toNat? with
+      | some seed, some n => some (genBytes (UInt64.ofNat seed) n)
+      | _, _ => none
+    | _ => none
+  else ofHex s
+
+def fnv (bs : Bytes) : UInt64 :=
+  bs.foldl (fun h b => (h ^^^ b.toUInt64) * 0x100000001b3) 0xcbf29ce484222325
+
+def hex16 (x : UInt64) : String := toHex (le64 x).reverse
+
+def hexLimit : Nat := 1024
+
+def showBytes (bs : Bytes) : String :=
+  if bs.length ≤ hexLimit then hexOrDash bs else s!"#{bs.length}:{hex16 (fnv bs)}"
+
+def parseFrags (s : String) : Option (List Nat) :=
+  if s == "-" then some [] else (s.splitOn ",").mapM String.toNat?
+
+def ascii (s : String) : Bytes := s.toUTF8.toList
+
+/-- the case's fragment sizes as wishes, followed by enough further read events to deliver everything. -/
+def fullSched (frags : List Nat) (total : Nat) : Sched := frags ++ List.replicate (total + 2) 1000000000
+
+def reqStr (inRunid : String) (inOff : Int) : String :=
+  s!"req={hexOrDash (ascii inRunid)}:{psyncOffset inOff}"
+
+/-! ### psync -/
+
+def startedLine2 (req : String) (isFull : Bool) (runid : Bytes) (offset : Int) (nsize : Nat) (rdb cmds : Bytes) : String :=
+  let kind := if isFull then "full" else "cont"
+  s!"{req} res={kind} runid={hexOrDash runid} offset={offset} nsize={nsize} rdb={showBytes rdb} cmds={showBytes cmds}"
+
+/-- the RDB consumer takes the first `nsize` bytes of the pipe, the command parser the rest. -/
+def startedLine (req : String) (isFull : Bool) (runid : Bytes) (offset : Int) (nsize : Nat) (out : Bytes) : String :=
+  startedLine2 req isFull runid offset nsize (out.take nsize) (out.drop nsize)
+
+def psyncModel (inRunid : String) (inOff : Int) (stream : Bytes) (frags : List Nat) : String :=
+  let req := reqStr inRunid inOff
+  match sendPSyncCmd codeBufs (ascii inRunid) inOff true (fullSched frags stream.length) stream with
+  | .started isFull runid offset nsize run =>
+    if run.st == .aborted then "abort"
+    else if run.st != .eof then "model-incomplete"
+    else startedLine req isFull runid offset nsize run.out
+  | .err => s!"{req} res=err"
+  | .abort => "abort"
+  | .starved => "model-starved"
+  | .unmodelled => "unmodelled"
+
+/-- above this many stream bytes the (list-based, hence slow) model run that double-checks the specification's
+prediction is skipped; the prediction itself never depends on the model. -/
+def crossCheckLimit : Nat := 2 * 1024 * 1024
+
+def psyncFull (inRunid : String) (inOff : Int) (f : Spec.Handoff.Full) (frags : List Nat) : String :=
+  if f.wf then
+    let req := s!"req={hexOrDash (ascii inRunid)}:{Spec.Handoff.requestOffset inOff}"
+    let s := startedLine2 req true f.id f.offset f.bulk.rdb.length f.bulk.rdb f.bulk.cmds
+    if f.bulk.rdb.length + f.bulk.cmds.length > crossCheckLimit then s
+    else
+      let m := psyncModel inRunid inOff f.stream frags
+      if m == s then s else s ++ " MODEL-DISAGREES:" ++ m
+  else psyncModel inRunid inOff f.stream frags
+
+/-- the `ack` kind: the psync line without the request, plus the first REPLCONF ACK = announced offset + bytes counted
+as command bytes (`Copy.count` of the command phase). -/
+def ackLine (inRunid : String) (inOff : Int) (f : Spec.Handoff.Full) (frags : List Nat) : String :=
+  let line (runid : Bytes) (offset : Int) (nsize : Nat) (out : Bytes) (ack : Int) : String :=
+    s!"res=full runid={hexOrDash runid} offset={offset} nsize={nsize} rdb={showBytes (out.take nsize)} cmds={showBytes (out.drop nsize)} ack={ack}"
+  -- the source stays connected: open connection, every byte delivered
+  let m := match sendPSyncCmd codeBufs (ascii inRunid) inOff false (fullSched frags f.stream.length) f.stream with
+    | .started true runid offset nsize run =>
+      if run.st == .aborted then "abort" else line runid offset nsize run.out (offset + run.count)
+    | .started false _ _ _ _ => "model-cont"
+    | .err => "res=err"
+    | .abort => "abort"
+    | .starved => "model-starved"
+    | .unmodelled => "unmodelled"
+  if f.wf then
+    let s := line f.id f.offset f.bulk.rdb.length (f.bulk.rdb ++ f.bulk.cmds) (f.offset + f.bulk.cmds.length)
+    if m == s then s else s ++ " MODEL-DISAGREES:" ++ m
+  else m
+
+/-- the `reconn` kind: first connection `+CONTINUE` ++ cmds1 (then EOF), second connection `stream2` (then EOF). -/
+def reconnLine (inRunid : String) (inOff : Int) (cmds1 stream2 : Bytes) (expect : Option String) : String :=
+  let first : Spec.Handoff.Cont := ⟨0, ascii "CONTINUE", cmds1⟩
+  let m :=
+    match sendPSyncCmd codeBufs (ascii inRunid) inOff true (fullSched [] first.stream.length) first.stream with
+    | .started false runid offset _ run1 =>
+      -- `runId` of the goroutine is the caller's run id; `ds.sourceOffset` moves with the ACK ticker (C08), its value
+      -- does not influence which branch is taken
+      match reconnect codeBufs runid offset true (fullSched [] stream2.length) stream2 with
+      | .copying run2 => s!"first={showBytes run1.out} second={showBytes run2.out}"
+      | .abort => "abort"
+      | .failed => "model-failed"
+      | .starved => "model-starved"
+      | .unmodelled => "unmodelled"
+    | _ => "model-first"
+  match expect with
+  | some s => if m == s then s else s ++ " MODEL-DISAGREES:" ++ m
+  | none => m
+
+def psyncCont (inRunid : String) (inOff : Int) (f : Spec.Handoff.Cont) (frags : List Nat) : String :=
+  let m := psyncModel inRunid inOff f.stream frags
+  if f.wf && inOff != -1 then
+    let req := s!"req={hexOrDash (ascii inRunid)}:{Spec.Handoff.requestOffset inOff}"
+    let s := startedLine req false (ascii inRunid) inOff 0 f.cmds
+    if m == s then s else s ++ " MODEL-DISAGREES:" ++ m
+  else m
+
+/-! ### incr / dump / dumpfile / sync -/
+
+def incrLine (nsize : Int) (data : Bytes) (frags : List Nat) : String :=
+  let run := runIncrementalSync codeBufs true (fullSched frags data.length) nsize data
+  let m := if run.st == .aborted then "abort" else if run.st != .eof then "model-incomplete"
+           else s!"pipe={showBytes run.out}"
+  if 0 ≤ nsize ∧ nsize ≤ data.length then
+    let s := s!"pipe={showBytes data}"
+    if m == s then s else s ++ " MODEL-DISAGREES:" ++ m
+  else m
+
+def dumpModel (stream : Bytes) (frags : List Nat) : String :=
+  match dump codeBufs true (fullSched frags stream.length) stream with
+  | .dumped n run =>
+    if run.st == .aborted then "abort" else if run.st != .done then "model-incomplete"
+    else s!"req=sync nsize={n} file={showBytes run.out} rest={hexOrDash run.rem}"
+  | .abort => "abort"
+  | .starved => "model-starved"
+
+def dumpLine (f : Spec.Handoff.Bulk) (frags : List Nat) : String :=
+  let m := dumpModel f.stream frags
+  if f.wf then
+    let s := s!"req=sync nsize={f.rdb.length} file={showBytes f.rdb} rest={hexOrDash f.cmds}"
+    if m == s then s else s ++ " MODEL-DISAGREES:" ++ m
+  else m
+
+def dumpFileLine (nsize : Int) (data : Bytes) (frags : List Nat) : String :=
+  let run := dumpLoop codeBufs.dump true nsize (fullSched frags data.length) 0 data
+  let m := if run.st == .aborted then "abort" else if run.st != .done then "model-incomplete"
+           else s!"file={showBytes run.out} rest={showBytes run.rem}"
+  if 0 < nsize ∧ nsize ≤ data.length then
+    let s := s!"file={showBytes (data.take nsize.toNat)} rest={showBytes (data.drop nsize.toNat)}"
+    if m == s then s else s ++ " MODEL-DISAGREES:" ++ m
+  else m
+
+def syncLine (f : Spec.Handoff.Bulk) : String :=
+  let m := match waitRdbDump f.stream with
+    | .size _ n rest => s!"nsize={n} rdb={showBytes (rest.take n)} cmds={showBytes (rest.drop n)}"
+    | _ => "abort"
+  if f.wf then
+    let s := s!"nsize={f.rdb.length} rdb={showBytes f.rdb} cmds={showBytes f.cmds}"
+    if m == s then s else s ++ " MODEL-DISAGREES:" ++ m
+  else m
+
+/-! ### units -/
+
+def waitLine (stream : Bytes) : String :=
+  match waitRdbDump stream with
+  | .size k n rest => s!"keepalives={k} n={n} rest={showBytes rest}"
+  | _ => "abort"
+
+def replyLine (inRunid : String) (inOff : Int) (stream : Bytes) : String :=
+  let sent := reqStr inRunid inOff
+  match sendPSyncContinue (ascii inRunid) inOff stream with
+  | .cont runid offset _ => s!"{sent} res=cont runid={hexOrDash runid} offset={offset}"
+  | .full runid offset _ => s!"{sent} res=full runid={hexOrDash runid} offset={offset}"
+  | .err => s!"{sent} res=err"
+  | .starved => "res=blocked"
+  | .unmodelled => "unmodelled"
+
+def iocopyLine (max : Int) (buflen : Nat) (data : Bytes) (wish : Nat) : String :=
+  match iocopyReq buflen max with
+  | none => "abort"
+  | some req =>
+    if data.isEmpty then "abort"
+    else
+      let n := chunkLen wish req data.length
+      s!"req={req} n={n} wrote={showBytes (data.take n)} left={data.length - n}"
+
+/-! ### dispatch -/
+
+def handle (line : String) : String :=
+  match line.splitOn " " with
+  | ["psync", inRunid, inOff, j, word, id, offtxt, k, ntxt, rdb, cmds, frags, _] =>
+    match inOff.toInt?, j.toNat?, ofHex id, k.toNat?, parseBytes rdb, parseBytes cmds, parseFrags frags with
+    | some inOff, some j, some id, some k, some rdb, some cmds, some frags =>
+      psyncFull inRunid inOff ⟨j, ascii word, id, ascii offtxt, ⟨k, ascii ntxt, rdb, cmds⟩⟩ frags
+    | _, _, _, _, _, _, _ => "badcase"
+  | ["ack", inRunid, inOff, j, word, id, offtxt, k, ntxt, rdb, cmds, frags, _] =>
+    match inOff.toInt?, j.toNat?, ofHex id, k.toNat?, parseBytes rdb, parseBytes cmds, parseFrags frags with
+    | some inOff, some j, some id, some k, some rdb, some cmds, some frags =>
+      ackLine inRunid inOff ⟨j, ascii word, id, ascii offtxt, ⟨k, ascii ntxt, rdb, cmds⟩⟩ frags
+    | _, _, _, _, _, _, _ => "badcase"
+  | ["reconn", inRunid, inOff, cmds1, j, word, cmds2] =>
+    match inOff.toInt?, parseBytes cmds1, j.toNat?, parseBytes cmds2 with
+    | some inOff, some cmds1, some j, some cmds2 =>
+      let f : Spec.Handoff.Cont := ⟨j, ascii word, cmds2⟩
+      reconnLine inRunid inOff cmds1 f.stream
+        (if f.wf then some s!"first={showBytes cmds1} second={showBytes cmds2}" else none)
+    | _, _, _, _ => "badcase"
+  | ["reconn", inRunid, inOff, cmds1, j, word, id, offtxt, k, ntxt, rdb, cmds] =>
+    match inOff.toInt?, parseBytes cmds1, j.toNat?, ofHex id, k.toNat?, parseBytes rdb, parseBytes cmds with
+    | some inOff, some cmds1, some j, some id, some k, some rdb, some cmds =>
+      let f : Spec.Handoff.Full := ⟨j, ascii word, id, ascii offtxt, ⟨k, ascii ntxt, rdb, cmds⟩⟩
+      -- a full resync cannot be served on the incremental path: the only outcome that hands no RDB byte to the
+      -- command parser is to stop
+      reconnLine inRunid inOff cmds1 f.stream (if f.wf then some "abort" else none)
+    | _, _, _, _, _, _, _ => "badcase"
+  | ["pcont", inRunid, inOff, j, word, cmds, frags, _] =>
+    match inOff.toInt?, j.toNat?, parseBytes cmds, parseFrags frags with
+    | some inOff, some j, some cmds, some frags => psyncCont inRunid inOff ⟨j, ascii word, cmds⟩ frags
+    | _, _, _, _ => "badcase"
+  | ["psyncraw", inRunid, inOff, stream, frags, _] =>
+    match inOff.toInt?, parseBytes stream, parseFrags frags with
+    | some inOff, some stream, some frags => psyncModel inRunid inOff stream frags
+    | _, _, _ => "badcase"
+  | ["incr", nsize, _, _, data, frags] =>
+    match nsize.toInt?, parseBytes data, parseFrags frags with
+    | some nsize, some data, some frags => incrLine nsize data frags
+    | _, _, _ => "badcase"
+  | ["dump", k, ntxt, rdb, cmds, frags, _] =>
+    match k.toNat?, parseBytes rdb, parseBytes cmds, parseFrags frags with
+    | some k, some rdb, some cmds, some frags => dumpLine ⟨k, ascii ntxt, rdb, cmds⟩ frags
+    | _, _, _, _ => "badcase"
+  | ["dumpfile", nsize, _, data, frags] =>
+    match nsize.toInt?, parseBytes data, parseFrags frags with
+    | some nsize, some data, some frags => dumpFileLine nsize data frags
+    | _, _, _ => "badcase"
+  | ["sync", k, ntxt, rdb, cmds, _, _] =>
+    match k.toNat?, parseBytes rdb, parseBytes cmds with
+    | some k, some rdb, some cmds => syncLine ⟨k, ascii ntxt, rdb, cmds⟩
+    | _, _, _ => "badcase"
+  | ["wait", stream] =>
+    match parseBytes stream with
+    | some stream => waitLine stream
+    | none => "badcase"
+  | ["reply", inRunid, inOff, stream] =>
+    match inOff.toInt?, parseBytes stream with
+    | some inOff, some stream => replyLine inRunid inOff stream
+    | _, _ => "badcase"
+  | ["iocopy", max, buflen, data, wish] =>
+    match max.toInt?, buflen.toNat?, parseBytes data, wish.toNat? with
+    | some max, some buflen, some data, some wish => iocopyLine max buflen data wish
+    | _, _, _, _ => "badcase"
+  | _ => "badcase"
+
 end RSVerif.Drive.C05
